@@ -71,6 +71,23 @@ pub struct PushConfigOidcToken {
     pub service_account_email: String,
 }
 
+/// Signals that new messages are available when dropped, unless disarmed.
+struct PassOnSignal<'a>(Option<&'a SubscriptionObserver>);
+
+impl PassOnSignal<'_> {
+    fn disarm(mut self) {
+        self.0 = None;
+    }
+}
+
+impl Drop for PassOnSignal<'_> {
+    fn drop(&mut self) {
+        if let Some(observer) = self.0 {
+            observer.notify_new_messages_available();
+        }
+    }
+}
+
 impl Subscription {
     /// Creates a new `Subscription`.
     pub fn new(
@@ -138,6 +155,12 @@ impl Subscription {
         max_count: u16,
     ) -> Result<Vec<PulledMessage>, PullMessagesError> {
         let (responder, recv) = oneshot::channel();
+
+        // A consumer usually pulls because the signal for new messages woke it, and that
+        // signal wakes one consumer only. If the consumer goes away while this request is
+        // still waiting for room in the mailbox, nobody pulls the messages it was woken
+        // for: the signal is passed on, so that another waiting consumer pulls instead.
+        let pass_on_signal = PassOnSignal(Some(&self.observer));
         self.sender
             .send(SubscriptionRequest::PullMessages {
                 max_count,
@@ -145,6 +168,7 @@ impl Subscription {
             })
             .await
             .map_err(|_| PullMessagesError::Closed)?;
+        pass_on_signal.disarm();
         recv.await.map_err(|_| PullMessagesError::Closed)?
     }
 
